@@ -236,51 +236,77 @@ func kvOf(line string) map[string]string {
 // ---- independent GF(2^128) arithmetic (math/big) used only to recover the Fiat-Shamir
 // challenge chi from the honest response by linear algebra ------------------------------------
 
-var gfPoly = new(big.Int).SetBytes([]byte{1, 0, 0, 0, 0, 0, 0, 0, 0, 0, 0, 0, 0, 0, 0, 0, 0x87}) // X^128+X^7+X^2+X+1
+// elements are (lo, hi) uint64 pairs, bit i = coefficient of X^i; product by the right-to-left
+// shift-and-add method with on-the-fly reduction by X^128 = X^7 + X^2 + X + 1
+type gf struct{ lo, hi uint64 }
 
-func gfMul(a, b *big.Int) *big.Int {
-	z := new(big.Int)
+func gfOf(x *big.Int) gf {
+	b := x.FillBytes(make([]byte, 16))
+	return gf{binary.BigEndian.Uint64(b[8:]), binary.BigEndian.Uint64(b[:8])}
+}
+
+func (a gf) big() *big.Int {
+	var b [16]byte
+	binary.BigEndian.PutUint64(b[:8], a.hi)
+	binary.BigEndian.PutUint64(b[8:], a.lo)
+	return new(big.Int).SetBytes(b[:])
+}
+
+func (a gf) xor(b gf) gf { return gf{a.lo ^ b.lo, a.hi ^ b.hi} }
+func (a gf) zero() bool  { return a.lo|a.hi == 0 }
+
+func gfMulE(a, b gf) gf {
+	var z gf
+	v := b
 	for i := 0; i < 128; i++ {
-		if a.Bit(i) == 1 {
-			z.Xor(z, new(big.Int).Lsh(b, uint(i)))
+		var bit uint64
+		if i < 64 {
+			bit = (a.lo >> uint(i)) & 1
+		} else {
+			bit = (a.hi >> uint(i-64)) & 1
 		}
-	}
-	for i := z.BitLen() - 1; i >= 128; i-- {
-		if z.Bit(i) == 1 {
-			z.Xor(z, new(big.Int).Lsh(gfPoly, uint(i-128)))
+		if bit == 1 {
+			z = z.xor(v)
+		}
+		carry := v.hi >> 63
+		v = gf{v.lo << 1, v.hi<<1 | v.lo>>63}
+		if carry == 1 {
+			v.lo ^= 0x87
 		}
 	}
 	return z
 }
 
-func gfInv(a *big.Int) *big.Int {
+func gfMul(a, b *big.Int) *big.Int { return gfMulE(gfOf(a), gfOf(b)).big() }
+
+func gfInvE(a gf) gf {
 	// a^(2^128-2)
-	r := big.NewInt(1)
-	sq := new(big.Int).Set(a)
+	r := gf{1, 0}
+	sq := a
 	for i := 0; i < 128; i++ {
 		if i >= 1 {
-			r = gfMul(r, sq)
+			r = gfMulE(r, sq)
 		}
-		sq = gfMul(sq, sq)
+		sq = gfMulE(sq, sq)
 	}
 	return r
 }
 
-// gfSolve solves sum_k chi_k * A[r][k] = rhs[r] (rows >= cols); nil if singular.
+// gfSolve solves sum_k chi_k * A[r][k] = rhs[r] (rows >= cols); nil if singular or inconsistent.
 func gfSolve(A [][]*big.Int, rhs []*big.Int, m int) []*big.Int {
 	rows := len(A)
-	M := make([][]*big.Int, rows)
+	M := make([][]gf, rows)
 	for i := range A {
-		M[i] = make([]*big.Int, m+1)
+		M[i] = make([]gf, m+1)
 		for k := 0; k < m; k++ {
-			M[i][k] = new(big.Int).Set(A[i][k])
+			M[i][k] = gfOf(A[i][k])
 		}
-		M[i][m] = new(big.Int).Set(rhs[i])
+		M[i][m] = gfOf(rhs[i])
 	}
 	for c := 0; c < m; c++ {
 		p := -1
 		for r := c; r < rows; r++ {
-			if M[r][c].Sign() != 0 {
+			if !M[r][c].zero() {
 				p = r
 				break
 			}
@@ -289,22 +315,22 @@ func gfSolve(A [][]*big.Int, rhs []*big.Int, m int) []*big.Int {
 			return nil
 		}
 		M[c], M[p] = M[p], M[c]
-		inv := gfInv(M[c][c])
+		inv := gfInvE(M[c][c])
 		for k := c; k <= m; k++ {
-			M[c][k] = gfMul(M[c][k], inv)
+			M[c][k] = gfMulE(M[c][k], inv)
 		}
 		for r := 0; r < rows; r++ {
-			if r != c && M[r][c].Sign() != 0 {
-				f := new(big.Int).Set(M[r][c])
+			if r != c && !M[r][c].zero() {
+				f := M[r][c]
 				for k := c; k <= m; k++ {
-					M[r][k] = new(big.Int).Xor(M[r][k], gfMul(f, M[c][k]))
+					M[r][k] = M[r][k].xor(gfMulE(f, M[c][k]))
 				}
 			}
 		}
 	}
 	out := make([]*big.Int, m)
 	for k := 0; k < m; k++ {
-		out[k] = M[k][m]
+		out[k] = M[k][m].big()
 	}
 	return out
 }
@@ -317,9 +343,9 @@ type outcome struct {
 	d          desc
 	class      string
 	nontrivial bool
-	lines      []string                                // model-driver input lines
-	cmp        func(outs []string) []vh.Mismatch       // relation R + property predicate, given the model's lines
-	prop       []vh.Mismatch                           // property failures found while driving the implementation
+	lines      []string                          // model-driver input lines
+	cmp        func(outs []string) []vh.Mismatch // relation R + property predicate, given the model's lines
+	prop       []vh.Mismatch                     // property failures found while driving the implementation
 	notes      []string
 }
 
@@ -695,7 +721,7 @@ func runExt(d desc) outcome {
 	if prgOK && m <= 120 {
 		A := make([][]*big.Int, 0, softspoken.Kappa+1)
 		rhs := make([]*big.Int, 0, softspoken.Kappa+1)
-		for i := 0; i < softspoken.Kappa; i++ {
+		for i := 0; i < min(softspoken.Kappa, m+8); i++ {
 			row := make([]*big.Int, m)
 			for k := 0; k < m; k++ {
 				row[k] = blockOf(t0[i], k)
